@@ -14,6 +14,7 @@ import (
 
 func profileByName(name string) Profile {
 	p := Profile{Name: name, W: defaultWeights(), Steer: map[string]bool{"dirmove": true}}
+	p.W["selfmove"] = 1
 	switch name {
 	case "generic":
 	case "bigfile":
@@ -65,6 +66,7 @@ func profileByName(name string) Profile {
 		p.W["restart"] = 2
 		p.W["giveback"] = 8
 		p.W["indwrite"] = 10
+		p.W["twin"] = 3
 		p.MaxWrite = 60000
 		p.Fill = true
 	case "crashmix": // C01/C07: all mutating RPCs, three stability levels, big removals
@@ -90,7 +92,7 @@ func profileByName(name string) Profile {
 		p.MaxWrite = 12000
 	case "lockorder": // C06: children with smaller and larger numbers than their parents, all multi-lock paths
 		p.W = map[string]int{"create": 12, "mkdir": 12, "symlink": 3, "remove": 10, "rmdir": 8, "rename": 22, "lookup": 14,
-			"readdirplus": 6, "readdir": 2, "restart": 6, "stale": 10, "write": 3, "truncate": 2, "getattr": 2, "badname": 2}
+			"readdirplus": 6, "readdir": 2, "restart": 6, "stale": 10, "write": 3, "truncate": 2, "getattr": 2, "badname": 2, "selfmove": 5}
 		p.Steer["dirmove"] = true
 	case "twin": // C10: running server vs. a second server recovered from a copy of its disk
 		p.W["twin"] = 10
@@ -104,6 +106,9 @@ func profileByName(name string) Profile {
 		p.W["settime"] = 4
 	case "manyobj": // C10: more live objects than the inode cache holds, multi-block directories
 		p.W = map[string]int{"create": 50, "mkdir": 6, "symlink": 4, "twin": 4, "lookup": 8, "rename": 8, "remove": 6, "write": 8, "getattr": 4, "badname": 3, "truncate": 3, "settime": 3}
+	case "hostile": // C11: arbitrary argument values on top of a live tree
+		p.W = map[string]int{"hostile": 70, "create": 8, "mkdir": 5, "write": 8, "symlink": 2, "remove": 2, "rename": 3, "restart": 1, "selfmove": 3, "stale": 3}
+		p.Steer["dirmove"] = false
 	case "names": // namespace heavy
 		p.W["write"] = 3
 		p.W["read"] = 2
